@@ -13,6 +13,7 @@ import (
 	"path/filepath"
 	"strings"
 	"sync"
+	"sync/atomic"
 	"testing"
 
 	"github.com/fsnotify/fsnotify"
@@ -36,8 +37,9 @@ import (
 )
 
 var (
-	remote *vkit.Scripted
-	k8sAPI *httptest.Server
+	remote  *vkit.Scripted
+	k8sAPI  *httptest.Server
+	k8sMode atomic.Int32 // behaviour of the fake API server for status updates
 )
 
 func TestMain(m *testing.M) {
@@ -46,6 +48,28 @@ func TestMain(m *testing.M) {
 	remote = vkit.NewScripted()
 	// a permissive fake API server: every status patch succeeds and echoes a minimal object
 	k8sAPI = httptest.NewServer(http.HandlerFunc(func(rw http.ResponseWriter, req *http.Request) {
+		switch k8sMode.Load() {
+		case 1: // not a kubernetes answer at all
+			rw.WriteHeader(http.StatusInternalServerError)
+			_, _ = rw.Write([]byte("<html>bad gateway</html>"))
+
+			return
+		case 2: // the API server is not reachable
+			if hj, ok := rw.(http.Hijacker); ok {
+				if conn, _, err := hj.Hijack(); err == nil {
+					_ = conn.Close()
+
+					return
+				}
+			}
+		case 3: // resource version conflict
+			rw.Header().Set("Content-Type", "application/json")
+			rw.WriteHeader(http.StatusNotFound)
+			_, _ = rw.Write([]byte(`{"kind":"Status","apiVersion":"v1","status":"Failure","reason":"NotFound","code":404}`))
+
+			return
+		}
+
 		rw.Header().Set("Content-Type", "application/json")
 		_, _ = rw.Write([]byte(`{"apiVersion":"heimdall.dadrus.github.com/v1alpha4","kind":"RuleSet","metadata":{"name":"x","namespace":"default"},"spec":{"authClassName":"x","rules":[]},"status":{"activeIn":"1/1"}}`))
 	}))
@@ -663,7 +687,11 @@ func containsRejected(ops []string) bool {
 
 // ---- kubernetes ---------------------------------------------------------------------------------------------------------------------------
 
+const kfK8sStatusPanic = "C18-kubernetes-status-update-panics-when-api-unreachable"
+
 func TestKubernetesProviderConverges(t *testing.T) {
+	exclK8sPanic := vkit.Known(kfK8sStatusPanic, func() bool { return false })
+
 	rapid.Check(t, func(t *rapid.T) {
 		w, rec := newWorld()
 
@@ -691,10 +719,23 @@ func TestKubernetesProviderConverges(t *testing.T) {
 			}
 		}
 
+		defer k8sMode.Store(0)
+
 		steps := rapid.IntRange(1, maxSteps()).Draw(t, "steps")
 		for i := 0; i < steps; i++ {
 			s := rapid.IntRange(0, nsrc-1).Draw(t, "object")
 			old := objects[s]
+
+			// status updates may fail in any way: loading the rules must not depend on them
+			mode := rapid.SampledFrom([]int32{0, 0, 0, 1, 2, 3}).Draw(t, "apiServer")
+			if exclK8sPanic && mode == 2 {
+				vkit.S.Exclude(kfK8sStatusPanic)
+
+				mode = 0
+			}
+
+			k8sMode.Store(mode)
+			nt = nt || mode != 0
 
 			switch op := rapid.SampledFrom([]string{"apply", "apply", "apply", "delete", "resync", "metadata"}).Draw(t, "op"); {
 			case op == "delete" && old != nil:
@@ -708,13 +749,13 @@ func TestKubernetesProviderConverges(t *testing.T) {
 
 				history = append(history, fmt.Sprintf("delete src%d", s))
 
-				h.OnDelete(old)
+				guard(t, history, func() { h.OnDelete(old) })
 				delete(objects, s)
 				checkStep(t, w, rec, m, nsrc, want, history)
 			case op == "resync" && old != nil:
 				history = append(history, fmt.Sprintf("resync src%d", s))
 
-				h.OnUpdate(old, old)
+				guard(t, history, func() { h.OnUpdate(old, old) })
 				checkStep(t, w, rec, m, nsrc, nil, history)
 
 				nt = true
@@ -723,7 +764,7 @@ func TestKubernetesProviderConverges(t *testing.T) {
 				cp.Labels = map[string]string{"touched": fmt.Sprint(i)}
 				history = append(history, fmt.Sprintf("metadata-only update src%d", s))
 
-				h.OnUpdate(old, cp)
+				guard(t, history, func() { h.OnUpdate(old, cp) })
 				objects[s] = cp
 				checkStep(t, w, rec, m, nsrc, nil, history)
 
@@ -743,7 +784,7 @@ func TestKubernetesProviderConverges(t *testing.T) {
 
 					history = append(history, fmt.Sprintf("add src%d %s class=%s", s, kind, class))
 
-					h.OnAdd(obj, false)
+					guard(t, history, func() { h.OnAdd(obj, false) })
 					objects[s], kindOf[s] = obj, kind
 					checkStep(t, w, rec, m, nsrc, want, history)
 
@@ -781,7 +822,7 @@ func TestKubernetesProviderConverges(t *testing.T) {
 
 				history = append(history, fmt.Sprintf("update src%d %s class=%s gen=%d", s, kind, class, obj.Generation))
 
-				h.OnUpdate(old, obj)
+				guard(t, history, func() { h.OnUpdate(old, obj) })
 				objects[s], kindOf[s] = obj, kind
 				checkStep(t, w, rec, m, nsrc, want, history)
 			}
@@ -824,4 +865,15 @@ func registerBucketDir(dir string) string {
 	opener.dirs[id] = dir
 
 	return id
+}
+
+// guard runs an informer callback; a panic there would end the informer goroutine and with it the process.
+func guard(t *rapid.T, history []string, fn func()) {
+	defer func() {
+		if r := recover(); r != nil {
+			t.Fatalf("the rule set event handler panicked (this terminates the process): %v\nhistory:\n  %s", r, strings.Join(history, "\n  "))
+		}
+	}()
+
+	fn()
 }
